@@ -419,7 +419,13 @@ pub fn check_route(ctx: &Ctx, r: &Route) -> Result<(), Fail> {
                     // unspanned hook error: comes back carrying the item's span
                     match e.explicit_span() {
                         None => fail!("c15:hook-error-unspanned", "error of hook {} on `{}` came back without a span", h, form.src),
-                        Some(s) => ensure!(inside(range(s), whole), "c15:hook-error-span-outside-item", "error of hook {} spans {:?}, item is {:?}", h, range(s), whole),
+                        Some(s) => {
+                            ensure!(inside(range(s), whole), "c15:hook-error-span-outside-item", "error of hook {} spans {:?}, item is {:?}", h, range(s), whole);
+                            // the expression hook sits directly below the dispatcher: its unspanned error gets *the item's* span
+                            if h == "expr" {
+                                ensure!(range(s) == whole, "c15:hook-error-span-not-the-item", "error of the expression hook on `{}` spans {:?}, the item is {:?}", form.src, range(s), whole);
+                            }
+                        }
                     }
                     ensure!(e.to_string().starts_with("probe-error:"), "c15:hook-error-replaced", "error text {:?}", e.to_string());
                 }
